@@ -25,7 +25,7 @@ import xapi
 
 LEAN_DIR = os.environ.get('C19M_LEAN_DIR', core.LEAN_DIR)          # development only: a private copy of lean/
 JGEN_DIR = os.path.join(LEAN_DIR, 'Xrl', 'JGen')
-PROP_MODULES = ['Xrl.Props.C19', 'Xrl.Props.C19b', 'Xrl.Props.C19c', 'Xrl.Props.C19d']          # all in namespace Xrl.C19; each imports the previous one
+PROP_MODULES = ['Xrl.Props.C19', 'Xrl.Props.C19b', 'Xrl.Props.C19c', 'Xrl.Props.C19d', 'Xrl.Props.C19e']          # all in namespace Xrl.C19; each imports the previous one
 PROP_FILES = [os.path.join(LEAN_DIR, *m.split('.')) + '.lean' for m in PROP_MODULES]
 PROPS = PROP_MODULES[-1]
 NS = 'Xrl.C19'
